@@ -402,6 +402,7 @@ func init() {
 			"protocol-respecting node also against the Go transcription of the contract), plus seeded random histories of " +
 			"length 8..60 incl. midi.ListenTo/SendTo, 85% protocol-respecting steps; midicatdrv: batches of seeded random " +
 			"protocol-respecting histories with concurrent senders (also overlapping stop/Listen and close/open of the out port) " +
+			"payload sessions on testdrv (sysex accepted; messages of 3 bytes to 9000 bytes incl. larger than the receive buffer, stop + listen again in between: all that fit arrive once, intact, in order); " +
 			"run by harness_midicat against the stand-in helper, plain and under the race detector, one batch with the helper unstartable. non-trivial = at least one delivery (hist), every enum subtree, every batch " +
 			"that delivered messages; distinct by op text",
 		Gen: p17Gen,
@@ -431,6 +432,7 @@ func p17Gen(r *Rng, tier string, emit func(Case)) {
 		ops, tags, nt := p17GenHistory(r)
 		emit(Case{Op: "ports.hist ops=" + p17ShowOps(ops), Tags: tags, NonTrivial: nt})
 	}
+	p17GenSysex(r, tier, emit)
 	p17GenMidicat(r, tier, emit)
 }
 
@@ -517,6 +519,8 @@ func p17Run(c Case, m *Model) Verdict {
 		return p17RunHist(c, m)
 	case strings.HasPrefix(c.Op, "ports.enum "):
 		return p17RunEnum(c, m)
+	case strings.HasPrefix(c.Op, "ports.sysex "):
+		return p17RunSysex(c, m)
 	case strings.HasPrefix(c.Op, "midicat."):
 		return p17RunMidicat(c, m)
 	}
